@@ -2,8 +2,7 @@ SPECIFICATION Spec
 CONSTANTS
   Glyphs = {"n", "a", "b", "c"}
   Payloads = {"p", "q"}
-  HasParallelRule = TRUE
-  MaxRounds = 2
+  HasParallelRule = FALSE
+  MaxRounds = 1
   Memo = FALSE
-INVARIANT Sorted
 PROPERTY MeaningAction
